@@ -53,6 +53,9 @@ type cCluster struct {
 	scheme string
 }
 
+// cClusterKeepLogs makes the daemons of the next cluster keep their log lines (C15 scans them).
+var cClusterKeepLogs bool
+
 func newCCluster(n int, seed uint64, scheme string) (*cCluster, error) {
 	c := &cCluster{clock: clock.NewFakeClockAt(time.Now().Truncate(time.Second)), period: 2 * time.Second, scheme: scheme}
 	sch := fx.Scheme(scheme)
@@ -62,7 +65,7 @@ func newCCluster(n int, seed uint64, scheme string) (*cCluster, error) {
 			return nil, err
 		}
 		addr := test.FreeBind("127.0.0.1")
-		nd := &cNode{dir: dir, addr: addr, log: hlog.New(false)}
+		nd := &cNode{dir: dir, addr: addr, log: hlog.New(cClusterKeepLogs)}
 		nd.pair = fx.Pair(seed, fmt.Sprintf("c13-%d", i), addr, sch)
 		nd.part, _ = util.PublicKeyAsParticipant(nd.pair.Public)
 		conf := NewConfig(nd.log, WithConfigFolder(dir), WithPrivateListenAddress(addr), WithControlPort(test.FreePort()), WithDBStorageEngine(chain.BoltDB),
